@@ -329,6 +329,13 @@ class Engine:
                         shape.fields[field] = ty
                         shape.dont_care = getattr(shape, "dont_care", set()) | {field}
                         return True
+                # an unannotated attribute initialised with a literal: its type is the literal's
+                if isinstance(node, ast.Assign) and len(node.targets) == 1 and isinstance(node.targets[0], ast.Attribute) and \
+                        isinstance(node.targets[0].value, ast.Name) and node.targets[0].value.id == "self" and node.targets[0].attr == field and \
+                        isinstance(node.value, ast.Constant) and type(node.value.value) in (int, float, str, bool):
+                    shape.fields[field] = {int: INT, float: REAL, str: STR, bool: BOOL}[type(node.value.value)]
+                    shape.dont_care = getattr(shape, "dont_care", set()) | {field}
+                    return True
             try:
                 todo.extend(self.src.class_bases(m, c))
             except Exception:
